@@ -265,4 +265,143 @@ theorem C18_apiSeek {env : Env} {K : Nat} {o : Opts} {es : List Entry} {tf : Tab
   | false => simpa using C18_seek h hs h8 it key hkey
   | true => simpa using C18_seekForPrev h hs h8 it key hkey
 
+/-! ## Opening, metadata, checksums -/
+
+theorem Tbl.maxVersionOf_ge (es : List Entry) : ∀ e ∈ es, parseTs e.key ≤ maxVersionOf es := by
+  have gen : ∀ (es : List Entry) (m : Nat),
+      m ≤ es.foldl (fun m e => if parseTs e.key > m then parseTs e.key else m) m ∧
+      ∀ e ∈ es, parseTs e.key ≤ es.foldl (fun m e => if parseTs e.key > m then parseTs e.key else m) m := by
+    intro es
+    induction es with
+    | nil => intro m; simp
+    | cons x xs ih =>
+      intro m
+      simp only [List.foldl_cons, List.mem_cons]
+      obtain ⟨h1, h2⟩ := ih (if parseTs x.key > m then parseTs x.key else m)
+      by_cases hgt : parseTs x.key > m
+      · simp only [hgt, if_true] at h1 h2 ⊢
+        refine ⟨by omega, ?_⟩
+        intro e he
+        rcases he with rfl | he
+        · exact h1
+        · exact h2 e he
+      · simp only [hgt, if_false] at h1 h2 ⊢
+        refine ⟨h1, ?_⟩
+        intro e he
+        rcases he with rfl | he
+        · omega
+        · exact h2 e he
+  exact (gen es 0).2
+
+theorem Tbl.maxVersionOf_mem (es : List Entry) (hne : es ≠ []) :
+    ∃ e ∈ es, maxVersionOf es = parseTs e.key := by
+  have gen : ∀ (es : List Entry) (m : Nat),
+      es.foldl (fun m e => if parseTs e.key > m then parseTs e.key else m) m = m ∨
+      ∃ e ∈ es, es.foldl (fun m e => if parseTs e.key > m then parseTs e.key else m) m = parseTs e.key := by
+    intro es
+    induction es with
+    | nil => intro m; simp
+    | cons x xs ih =>
+      intro m
+      simp only [List.foldl_cons, List.mem_cons]
+      rcases ih (if parseTs x.key > m then parseTs x.key else m) with h | ⟨e, he, h⟩
+      · rw [h]
+        split
+        · exact Or.inr ⟨x, Or.inl rfl, rfl⟩
+        · exact Or.inl rfl
+      · exact Or.inr ⟨e, Or.inr he, h⟩
+  rcases gen es 0 with h | h
+  · obtain ⟨e0, r, rfl⟩ := List.exists_cons_of_ne_nil hne
+    refine ⟨e0, by simp, ?_⟩
+    have := maxVersionOf_ge (e0 :: r) e0 (by simp)
+    unfold maxVersionOf at *
+    omega
+  · exact h
+
+/-- **C18_meta.** `OpenInMemoryTable` / `OpenTable` (any `ChkMode`, including the table-level
+    `VerifyChecksum` of `OnTableRead` / `OnTableAndBlockRead`) succeeds on the built table, and
+    `Smallest()` is the first added key, `Biggest()` the last added key, `KeyCount()` the number
+    of entries, `MaxVersion()` the maximum of `ParseTs` over the keys; `DoesNotHave` is false
+    for the hash of every added user key, for any bloom implementation without false
+    negatives (and always false when the filter is off). -/
+theorem C18_meta {env : Env} {K : Nat} {o : Opts} {es : List Entry} {tf : TableFile}
+    (h : Built env K o es tf) (inMemory : Bool) :
+    ∃ t, openTable env o tf inMemory = .ok t ∧ t.core = ⟨o, tf⟩ ∧
+      (∀ e0, es[0]? = some e0 → t.smallest = e0.key) ∧
+      (∀ el, es[es.length - 1]? = some el → t.biggest = el.key) ∧
+      t.keyCount = es.length ∧
+      (∀ e ∈ es, parseTs e.key ≤ t.maxVersion) ∧ (∃ e ∈ es, t.maxVersion = parseTs e.key) ∧
+      ((∀ hs x, x ∈ hs → env.mayContain (env.mkFilter hs) x = true) →
+        ∀ e ∈ es, t.doesNotHave env (env.hash (parseKey e.key)) = false) := by
+  obtain ⟨G, hG, hne, hGne, ok, hkc, hmv, hbl⟩ := h.tableOK
+  have hGpos : 0 < G.length := List.length_pos_iff.mpr hGne
+  obtain ⟨g0, hg0⟩ := getElem?_some_of_lt G 0 hGpos
+  obtain ⟨ko, hko, hkk⟩ := ok.keys 0 g0 hg0
+  obtain ⟨e0, he0, hb0, hf0⟩ := base_get hne hg0
+  obtain ⟨gl, hgl⟩ := getElem?_some_of_lt G (G.length - 1) (by omega)
+  have hglpos := List.length_pos_iff.mpr (hne gl (List.mem_of_getElem? hgl))
+  obtain ⟨el, hel⟩ := getElem?_some_of_lt gl (gl.length - 1) (by omega)
+  obtain ⟨it', hrw, hat, _⟩ := seekToLast_ok ok ({ reversed := true } : TIter) gl el hgl hel
+  have hrw' : ({ reversed := true } : TIter).apiRewind env ⟨o, tf⟩ = some it' := by
+    simp [TIter.apiRewind, hrw]
+  have hvalid : it'.valid = true := by simp [TIter.valid, hat.err]
+  have hopen : openTable env o tf inMemory = .ok ⟨⟨o, tf⟩, ko.key, it'.key⟩ := by
+    unfold openTable
+    have hko' : tf.index.offsets[0]? = some ko := hko
+    simp only [hko', hrw', hvalid, Bool.not_true, Bool.false_eq_true, if_false]
+    rw [verifyChecksum_ok ok]
+    split <;> rfl
+  have hflast := flatten_getElem? G (G.length - 1) (gl.length - 1) gl el hgl hel
+  have hlastidx : (G.take (G.length - 1)).flatten.length + (gl.length - 1) = es.length - 1 := by
+    have := take_succ_flatten_length G (G.length - 1) gl hgl
+    have h2 : G.length - 1 + 1 = G.length := by omega
+    rw [h2, List.take_length, hG] at this
+    omega
+  rw [hlastidx, hG] at hflast
+  simp only [List.take_zero, List.flatten_nil, List.length_nil] at hf0
+  rw [hG] at hf0
+  have hlen : es.length < 4294967296 := by have := h.raw; omega
+  refine ⟨_, hopen, rfl, ?_, ?_, ?_, ?_, ?_, ?_⟩
+  · intro e hE; rw [hf0] at hE; cases hE; rw [hkk, hb0]
+  · intro e hE; rw [hflast] at hE; cases hE; exact hat.key
+  · show tf.index.keyCount = es.length
+    rw [hkc]; exact u32_of_lt hlen
+  · intro e he
+    show parseTs e.key ≤ tf.index.maxVersion
+    rw [hmv]; exact maxVersionOf_ge es e he
+  · show ∃ e ∈ es, tf.index.maxVersion = parseTs e.key
+    rw [hmv]; exact maxVersionOf_mem es h.ne
+  · intro hbloom e he
+    unfold Table.doesNotHave Table.hasBloomFilter
+    show (if (!decide (tf.index.bloom.length > 0)) = true then false
+      else !env.mayContain tf.index.bloom (env.hash (parseKey e.key))) = false
+    rw [hbl]
+    cases hob : o.bloom with
+    | false => simp
+    | true =>
+      have := hbloom (es.map (fun e => env.hash (parseKey e.key))) (env.hash (parseKey e.key))
+        (List.mem_map.mpr ⟨e, he, rfl⟩)
+      simp [this]
+
+/-- **C18_checksum_ok.** `Table.VerifyChecksum` passes on the built table (every block is
+    read back and its checksum verifies), in every `ChkMode`. -/
+theorem C18_checksum_ok {env : Env} {K : Nat} {o : Opts} {es : List Entry} {tf : TableFile}
+    (h : Built env K o es tf) : (TableCore.mk o tf).verifyChecksum env = some true := by
+  obtain ⟨G, _, _, _, ok, _⟩ := h.tableOK
+  exact verifyChecksum_ok ok
+
+/-- **C18_roundtrip_codec.** The results do not depend on the codec: two tables built from
+    the same entries with different lawful compression / encryption functions (and possibly
+    different options) iterate identically, and equal the input. -/
+theorem C18_roundtrip_codec {env₁ env₂ : Env} {K₁ K₂ : Nat} {o₁ o₂ : Opts} {es : List Entry}
+    {tf₁ tf₂ : TableFile} (h₁ : Built env₁ K₁ o₁ es tf₁) (h₂ : Built env₂ K₂ o₂ es tf₂)
+    (fuel : Nat) (hfuel : es.length < fuel) (rev : Bool) :
+    (TableCore.mk o₁ tf₁).entries env₁ rev fuel = (TableCore.mk o₂ tf₂).entries env₂ rev fuel ∧
+    (TableCore.mk o₁ tf₁).entries env₁ rev fuel = some (if rev then es.reverse else es) := by
+  have a := C18_entries h₁ fuel hfuel
+  have b := C18_entries h₂ fuel hfuel
+  cases rev with
+  | false => exact ⟨by rw [a.1, b.1], by simpa using a.1⟩
+  | true => exact ⟨by rw [a.2, b.2], by simpa using a.2⟩
+
 end Badger
